@@ -163,9 +163,77 @@ fn gen_scenario(seed: u64) -> Vec<Vec<Inst>> {
         .collect()
 }
 
+/// Family 3: one deterministic generator shared by reference (`Sync`); every thread clones it through
+/// the shared reference, concurrently, and draws from its own clone. All clones must produce what a
+/// clone taken alone produces.
+fn shared_reference_scenario(seed: u64) -> bool {
+    fn run<R: RngCore + Clone + Send + Sync + 'static>(g: R, threads: usize, n: usize) -> bool {
+        let alone: Vec<u64> = {
+            let mut c = g.clone();
+            (0..n).map(|_| c.next_u64()).collect()
+        };
+        let shared = Arc::new(g);
+        let barrier = Arc::new(Barrier::new(threads));
+        let hs: Vec<_> = (0..threads)
+            .map(|_| {
+                let (s, b) = (shared.clone(), barrier.clone());
+                std::thread::spawn(move || {
+                    b.wait();
+                    let mut c = (*s).clone();
+                    (0..n).map(|_| c.next_u64()).collect::<Vec<u64>>()
+                })
+            })
+            .collect();
+        let mut ok = true;
+        for (t, h) in hs.into_iter().enumerate() {
+            let v = h.join().expect("thread panicked");
+            if v != alone {
+                println!("MISMATCH shared-reference clone on thread {} differs from a clone taken alone", t);
+                ok = false;
+            }
+        }
+        ok
+    }
+    let mut rng = Prng::new(prng::h2(seed, 0xC193));
+    let threads = rng.range(2, 3) as usize;
+    let pre = rng.below(20);
+    match rng.below(5) {
+        0 => {
+            let mut g = rand_hc::Hc128Rng::seed_from_u64(rng.u64());
+            for _ in 0..pre {
+                g.next_u32();
+            }
+            run(g, threads, 20)
+        }
+        1 => {
+            let mut g = rand_isaac::IsaacRng::seed_from_u64(rng.u64());
+            for _ in 0..pre {
+                g.next_u32();
+            }
+            run(g, threads, 6)
+        }
+        2 => {
+            let mut g = rand_isaac::Isaac64Rng::seed_from_u64(rng.u64());
+            for _ in 0..pre {
+                g.next_u32();
+            }
+            run(g, threads, 6)
+        }
+        3 => run(rand_xoshiro::Xoshiro512StarStar::seed_from_u64(rng.u64()), threads, 12),
+        _ => run(rand_xorshift::XorShiftRng::from_seed([0; 16]), threads, 12),
+    }
+}
+
 fn main() {
     let args: Vec<String> = std::env::args().collect();
     let seed: u64 = args.get(1).and_then(|s| s.parse().ok()).unwrap_or(1);
+    if seed % 4 == 3 {
+        if shared_reference_scenario(seed) {
+            println!("ok scenario_seed={} family=shared_reference", seed);
+            return;
+        }
+        std::process::exit(3);
+    }
     let scenario = gen_scenario(seed);
     if args.iter().any(|a| a == "--print") {
         println!("{:#?}", scenario);
